@@ -253,46 +253,53 @@ void harvestAll()
       if (w().fds[ fd].used) harvest( fd);
 }
 
-FILE* simOpen( const char* cpath, const char* mode)
+/// what an open asks for, independent of the API it came through
+struct OpenReq
+{
+   bool  rd = false, wr = false, create = false, trunc = false, append = false, excl = false;
+   char  tag = 'r';   // for the trace / hash: r, w or a
+};
+
+/// common part of fopen() and open(): returns a registered descriptor or -1
+int simOpenCore( const char* cpath, const OpenReq& rq)
 {
    World&             wd = w();
    const std::string  path = norm( cpath);
-   const char         m0 = mode[ 0];
-   const bool         plus = strchr( mode, '+') != nullptr;
-   const bool         creating = (m0 == 'w' || m0 == 'a');
+   const bool         creating = rq.create || rq.trunc || rq.append;
    const CallPos      pos = countCall( ccOpen, creating);
 
-   if (wd.frozen) { errno = EIO; ev( "open", path, m0, -EIO); return nullptr; }
+   if (wd.frozen) { errno = EIO; ev( "open", path, rq.tag, -EIO); return -1; }
    if (Fault* f = dueFault( ccOpen, creating, pos, { "open_enoent", "open_eacces", "open_eisdir" }))
    {
       errno = f->kind == "open_enoent" ? ENOENT : (f->kind == "open_eacces" ? EACCES : EISDIR);
-      ev( "open", path, m0, -errno);
-      return nullptr;
+      ev( "open", path, rq.tag, -errno);
+      return -1;
    }
    if (creating)
       if (dueFault( ccOpen, true, pos, { "crash" }) != nullptr)
       {
          freeze( ccOpen, pos, "");
          errno = EIO;
-         return nullptr;
+         return -1;
       }
    auto  node = find( path);
    if (node == nullptr)
    {
-      if (!creating) { errno = ENOENT; ev( "open", path, m0, -ENOENT); return nullptr; }
+      if (!rq.create) { errno = ENOENT; ev( "open", path, rq.tag, -ENOENT); return -1; }
       auto  par = find( parentOf( path));
-      if (par == nullptr) { errno = ENOENT; ev( "open", path, m0, -ENOENT); return nullptr; }
-      if (!par->dir) { errno = ENOTDIR; ev( "open", path, m0, -ENOTDIR); return nullptr; }
+      if (par == nullptr) { errno = ENOENT; ev( "open", path, rq.tag, -ENOENT); return -1; }
+      if (!par->dir) { errno = ENOTDIR; ev( "open", path, rq.tag, -ENOTDIR); return -1; }
       node = std::make_shared< Node>();
       wd.nodes[ path] = node;
    } else
    {
-      if (node->dir && creating) { errno = EISDIR; ev( "open", path, m0, -EISDIR); return nullptr; }
-      if (node->unreadable) { errno = EACCES; ev( "open", path, m0, -EACCES); return nullptr; }
-      if (m0 == 'w') node->data.clear();
+      if (rq.create && rq.excl) { errno = EEXIST; ev( "open", path, rq.tag, -EEXIST); return -1; }
+      if (node->dir && rq.wr) { errno = EISDIR; ev( "open", path, rq.tag, -EISDIR); return -1; }
+      if (node->unreadable) { errno = EACCES; ev( "open", path, rq.tag, -EACCES); return -1; }
+      if (rq.trunc && rq.wr) node->data.clear();
    }
    const int  fd = allocFd();
-   if ((m0 == 'r') && !node->dir && !node->data.empty())
+   if (rq.rd && !rq.wr && !node->dir && !node->data.empty())
    {
       // copy for readers that bypass read() (C stdio)
       size_t  done = 0;
@@ -304,20 +311,67 @@ FILE* simOpen( const char* cpath, const char* mode)
       }
       syscall( SYS_lseek, fd, 0, SEEK_SET);
    }
-   static auto  real_fdopen = real( __interceptor_fdopen, "fdopen");
-   FILE*  fp = real_fdopen( fd, mode);
-   if (fp == nullptr) { close( fd); errno = EMFILE; return nullptr; }
    OpenDesc&  d = wd.fds[ fd];
+   d = OpenDesc();
    d.used = true;
    d.node = node;
    d.path = path;
-   d.append = (m0 == 'a');
-   d.rd = (m0 == 'r') || plus;
-   d.wr = creating || plus;
+   d.append = rq.append;
+   d.rd = rq.rd;
+   d.wr = rq.wr;
+   d.off = 0;
+   ev( "open", path, rq.tag, fd);
+   return fd;
+}
+
+FILE* simOpen( const char* cpath, const char* mode)
+{
+   const char  m0 = mode[ 0];
+   const bool  plus = strchr( mode, '+') != nullptr;
+   OpenReq     rq;
+   rq.tag = m0;
+   rq.rd = (m0 == 'r') || plus;
+   rq.wr = (m0 != 'r') || plus;
+   rq.create = (m0 == 'w' || m0 == 'a');
+   rq.trunc = (m0 == 'w');
+   rq.append = (m0 == 'a');
+   const int  fd = simOpenCore( cpath, rq);
+   if (fd < 0)
+      return nullptr;
+   static auto  real_fdopen = real( __interceptor_fdopen, "fdopen");
+   FILE*  fp = real_fdopen( fd, mode);
+   if (fp == nullptr)
+   {
+      w().fds[ fd] = OpenDesc();
+      syscall( SYS_close, fd);
+      errno = EMFILE;
+      return nullptr;
+   }
    // glibc positions a write-only append stream at the end of the file
-   d.off = (m0 == 'a' && !plus) ? node->data.size() : 0;
-   ev( "open", path, m0, fd);
+   if (m0 == 'a' && !plus) w().fds[ fd].off = w().fds[ fd].node->data.size();
    return fp;
+}
+
+int simOpenFd( const char* cpath, int flags)
+{
+   OpenReq    rq;
+   const int  acc = flags & O_ACCMODE;
+   rq.rd = (acc == O_RDONLY || acc == O_RDWR);
+   rq.wr = (acc == O_WRONLY || acc == O_RDWR);
+   rq.create = (flags & O_CREAT) != 0;
+   rq.trunc = (flags & O_TRUNC) != 0;
+   rq.append = (flags & O_APPEND) != 0;
+   rq.excl = (flags & O_EXCL) != 0;
+   rq.tag = rq.wr ? (rq.append ? 'a' : 'w') : 'r';
+   const int  fd = simOpenCore( cpath, rq);
+   if (fd >= 0 && (flags & O_DIRECTORY) && !w().fds[ fd].node->dir)
+   {
+      w().fds[ fd] = OpenDesc();
+      syscall( SYS_close, fd);
+      errno = ENOTDIR;
+      return -1;
+   }
+   return fd;
 }
 
 ssize_t simWrite( int fd, const char* buf, size_t n)
@@ -511,7 +565,7 @@ size_t closeLeaked()
          // the FILE object belongs to an abandoned stream; only the
          // descriptor can be given back
          wd.fds[ fd] = OpenDesc();
-         ::close( fd);
+         syscall( SYS_close, fd);
          ++n;
       }
    return n;
@@ -557,6 +611,62 @@ extern "C" FILE* fopen( const char* path, const char* mode)
    if (isSim( path)) return simOpen( path, mode);
    static auto  fn = real( __interceptor_fopen, "fopen");
    return fn( path, mode);
+}
+
+extern "C" int open( const char* path, int flags, ...)
+{
+   mode_t  mode = 0;
+   if (flags & (O_CREAT | O_TMPFILE))
+   {
+      va_list  ap;
+      va_start( ap, flags);
+      mode = static_cast< mode_t>( va_arg( ap, int));
+      va_end( ap);
+   }
+   if (isSim( path)) return simOpenFd( path, flags);
+   return static_cast< int>( syscall( SYS_openat, AT_FDCWD, path, flags, mode));
+}
+
+extern "C" int open64( const char* path, int flags, ...)
+{
+   mode_t  mode = 0;
+   if (flags & (O_CREAT | O_TMPFILE))
+   {
+      va_list  ap;
+      va_start( ap, flags);
+      mode = static_cast< mode_t>( va_arg( ap, int));
+      va_end( ap);
+   }
+   if (isSim( path)) return simOpenFd( path, flags);
+   return static_cast< int>( syscall( SYS_openat, AT_FDCWD, path, flags | O_LARGEFILE, mode));
+}
+
+extern "C" int openat( int dirfd, const char* path, int flags, ...)
+{
+   mode_t  mode = 0;
+   if (flags & (O_CREAT | O_TMPFILE))
+   {
+      va_list  ap;
+      va_start( ap, flags);
+      mode = static_cast< mode_t>( va_arg( ap, int));
+      va_end( ap);
+   }
+   if (isSim( path)) return simOpenFd( path, flags);
+   return static_cast< int>( syscall( SYS_openat, dirfd, path, flags, mode));
+}
+
+extern "C" int close( int fd)
+{
+   if (simFd( fd))
+   {
+      World&         wd = w();
+      const CallPos  pos = countCall( ccClose, true);
+      if (!wd.frozen && dueFault( ccClose, true, pos, { "crash" }) != nullptr)
+         freeze( ccClose, pos, "");
+      ev( "close", wd.fds[ fd].path, fd, 0);
+      wd.fds[ fd] = OpenDesc();
+   }
+   return static_cast< int>( syscall( SYS_close, fd));
 }
 
 extern "C" int fclose( FILE* fp)
